@@ -117,7 +117,8 @@ def null_spec(draw, allowed=True, bias=None):
 
 
 _names = st.one_of(st.sampled_from(["a", "b", "c", "x", "y", "z", "col", "A", "value", "idx", "index", "é", "a b", "0", "a.b"]),
-                   st.text(alphabet=string.ascii_letters + "_", min_size=1, max_size=5))
+                   # ("_rid" is the harness's own row-id column; Hypothesis does pick such constants up from the sources)
+                   st.text(alphabet=string.ascii_letters + "_", min_size=1, max_size=5).filter(lambda s: s != "_rid"))
 
 
 @st.composite
